@@ -15,6 +15,7 @@ import (
 	"encoding/json"
 	"fmt"
 	"os"
+	"os/signal"
 	"path/filepath"
 	"sort"
 	"strings"
@@ -499,6 +500,15 @@ func loadCorpus(dir string) []*Case {
 }
 
 func realMain() int {
+	// A process started with SIGINT ignored (a background job of a non-interactive shell,
+	// nohup) hands that disposition to its children, and the sleepers that scripts interrupt
+	// would then sleep on.  Installing a handler makes the children start with the default.
+	sigc := make(chan os.Signal, 1)
+	signal.Notify(sigc, os.Interrupt)
+	go func() {
+		<-sigc
+		os.Exit(130)
+	}()
 	f := common.ParseFlags()
 	prop := os.Getenv("VERIF_PROP")
 	if prop == "" {
